@@ -52,6 +52,7 @@ def run(rep: Report, tier: str) -> None:
 	rule_h(rep, idx)
 	rule_i(rep, idx)
 	rule_j(rep)
+	rule_k(rep, idx)
 
 
 def _errors_classes(idx: SourceIndex) -> dict[str, object]:
@@ -718,3 +719,48 @@ def rule_j(rep: Report) -> None:
 					continue
 				why = ambiguous(list(tree))
 				r.check(why is None, key, (rel, line), f'terminal `{name}` is /{src[:70]}/: {why}. A token that does not match in the end (a quoted text with an escape the terminal does not list) is rejected only after exponentially many attempts — 24 characters take seconds, 40 do not finish — so processing does not terminate in practice', src[:100])
+
+
+# ---- (k) lookup boundaries convert a missing key ----------------------------------------------------------------------------------------
+
+# the tables whose "not found" is an answer about the INPUT (an undefined name, a path that is not in the tree, a tag without node class). Confirmed by
+# reading (each looks a parameter up in a dict of self and raises the listed class when it is absent) and frozen: callers rely on the class, e.g.
+# ExpandModules does `db[import_path#name]` for `from M import N` with no membership test of its own.
+LOOKUP_BOUNDARIES = {
+	('rogw/tranp/semantics/reflection/db.py', 'SymbolDB.__getitem__'): 'Errors.SymbolNotDefined',
+	('rogw/tranp/syntax/ast/cache.py', 'EntryCache.by'): 'Errors.NodeNotFound',
+	('rogw/tranp/syntax/ast/cache.py', 'EntryCache.group_by'): 'Errors.NodeNotFound',
+	('rogw/tranp/syntax/ast/resolver.py', 'Resolver.resolve'): 'Errors.UnresolvedNode',
+	('rogw/tranp/syntax/node/resolver.py', 'NodeResolver.resolve'): 'Errors.UnresolvedNode',
+}
+
+
+def rule_k(rep: Report, idx: SourceIndex) -> None:
+	from vlib.match import atoms
+	r = rep.rule('C07/lookup-boundaries-convert', 'each listed table lookup raises its Errors.* class for an absent key: every raw `self.<table>[<parameter>]` read is dominated by a membership test (or lies in a try converting KeyError), and the class is still raised', floor=4)
+	for (rel, q), want in LOOKUP_BOUNDARIES.items():
+		m = idx.mod(rel)
+		rep.consulted(rel)
+		f = m.functions.get(q)
+		if f is None:
+			r.skip(q, (rel, 1), f'{q} vanished (renamed?): re-confirm the lookup boundaries')
+			continue
+		params = [p_ for p_ in f.params() if p_ not in ('self', 'cls')]
+		raises = [raised_name(n) for n in walk_no_nested(f.node) if isinstance(n, ast.Raise)]
+		pm_ = parent_map(f.node)
+		raw = []
+		for n in walk_no_nested(f.node):
+			if isinstance(n, ast.Subscript) and isinstance(n.ctx, ast.Load) and isinstance(n.value, ast.Attribute) and isinstance(n.value.value, ast.Name) and n.value.value.id == 'self' and isinstance(n.slice, ast.Name) and n.slice.id in params:
+				known = atoms(f.node, n)
+				guarded = any(isinstance(a, ast.Compare) and len(a.ops) == 1 and isinstance(a.ops[0], (ast.In, ast.NotIn)) and unparse(a.left) == n.slice.id for a, _ in known) \
+					or any(isinstance(a, ast.Call) and isinstance(a.func, ast.Attribute) and a.func.attr in ('exists', 'can_resolve', 'has') and any(unparse(x) == n.slice.id for x in a.args) for a, _ in known)
+				tried = any(set(handler_types(h)) & {'KeyError', 'LookupError', 'Exception'} and any(raised_name(x) == want for x in handler_raises(h)) for t in enclosing_tries(n, pm_) for h in t.handlers)
+				if not guarded and not tried:
+					raw.append(n)
+		r.check(not raw, f'{q}:guarded', (rel, (raw[0] if raw else f.node).lineno), f'{q} reads `{unparse(raw[0]) if raw else ""}` with no membership test and no KeyError conversion: for a key that is not in the table (`from typing import Nope`: the module exists, the name does not) a builtin KeyError escapes Modules.load instead of {want}, and the interactive loop ends', unparse(raw[0]) if raw else '')
+		r.check(want in raises or any(has_raise_in_helpers(f, want) for _ in [0]), f'{q}:raises', f.where, f'{q} no longer raises {want} for an absent key (raises: {sorted(set(x for x in raises if x))}): callers rely on that class to report an undefined name / path')
+
+
+def has_raise_in_helpers(f, want: str) -> bool:
+	from vlib.norm import helper_closure
+	return any(raised_name(n) == want for g in helper_closure(f, 2) for n in ast.walk(g.node) if isinstance(n, ast.Raise))
